@@ -132,6 +132,38 @@ def pwl(curve, x, col):
     raise AssertionError
 
 
+def replay_retarget(args):
+    """C01 on a live Zone that is targeted, given one more stream IN PLACE, and targeted again: the second result must be the
+    cascade over the zone's streams as they then are (the case's own expected values; the first over the case minus its last stream
+    is not judged here).  Returns (violations, flags)."""
+    case, ename = args
+    from . import utility as util_mod
+    if not util_mod._OP:
+        util_mod._init()
+    emb = EMBS[ename]
+    S = case["S"]
+    out = []
+    try:
+        z = util_mod.build_zone(dict(S=S[:-1], HU=[], CU=[]), emb)
+        util_mod._OP["di"](z)
+        s = S[-1]
+        lo, hi = s["lo"], s["hi"]
+        ts, tt = (hi, lo) if s["k"] == "H" else (lo, hi)
+        st = util_mod._OP["Stream"](name=f"S{len(S)}", t_supply=emb.T(ts), t_target=emb.T(tt), heat_flow=emb.Q(s["cp"] * (hi - lo)),
+                                     dt_cont=emb.dT(s["dtc"]), htc=1.0, is_process_stream=True)
+        (z.hot_streams if s["k"] == "H" else z.cold_streams).add(st)
+        util_mod._OP["di"](z)
+        t = z.targets["Z/Direct Integration"]
+    except Exception as e:
+        return [("C01.retarget_raises", dict(exc=repr(e)[:300], emb=ename))], {}
+    scale = max(1.0, emb.Q(case["totHot"] + case["totCold"]))
+    for key, exp in (("hot_utility_target", "Qh"), ("cold_utility_target", "Qc"), ("heat_recovery_target", "Qr")):
+        got = float(getattr(t, key))
+        if not close(got, emb.Q(case[exp]), scale):
+            out.append(("C01." + exp, dict(got=got, expected=emb.Q(case[exp]), emb=ename, after="a stream was added to the targeted zone in place and the zone targeted again")))
+    return out, {}
+
+
 def replay_component(args):
     """One case, one embedding, component level.  Returns (violations, flags)."""
     case, ename = args
@@ -380,6 +412,16 @@ def check(prop: str, tier: str, run: Run, replay_case=None):
                     seen_samples += 1
                     run.cov["samples"].append({"config": name, "embedding": ename, "streams": case["S"], "zones": case["z"],
                                                "expected": {k: case[k] for k in ("Qh", "Qc", "Qr", "pinchAbsent", "hotPinch", "coldPinch")}})
+        if prop == "C01" and not service_level and name in ("quickA", "deepL", "quickZ"):
+            from ..common import sample as _sample
+            multi = [c for c in cases if len(c["S"]) >= 2 and all(x["hi"] - x["lo"] > 1 for x in c["S"])]
+            rj = [(c, embs3[i % 3]) for i, c in enumerate(_sample(multi, 1500 if tier == "quick" else 15000, 21))]
+            with Pool(16, initializer=_init) as pool:
+                for (case, ename), (out, _) in zip(rj, pool.imap(replay_retarget, rj, chunksize=32)):
+                    run.cov["evaluations"] += 1
+                    run.cov["traces_validated_against_impl"] += 1
+                    for clause, d in out:
+                        run.violation(clause, case, d)
         if not run.cov["samples"] and cases:
             c = cases[len(cases) // 2]
             run.cov["samples"].append({"config": name, "streams": c["S"], "zones": c["z"],
